@@ -257,7 +257,7 @@ Proof.
 Qed.
 
 (** * F6: the mean of two fractions is a fraction *)
-Lemma half_mean_range x y : finite x = true -> finite y = true ->
+Lemma half_mean_range_fin x y : finite x = true -> finite y = true ->
   (0 <=? x) = true -> (x <=? 1) = true -> (0 <=? y) = true -> (y <=? 1) = true ->
   finite ((x + y) / 2) = true /\ (0 <=? (x + y) / 2) = true /\ ((x + y) / 2 <=? 1) = true.
 Proof.
@@ -271,6 +271,13 @@ Proof.
  { rewrite FR_two, FR_zero, FR_one. lra. }
  rewrite FR_zero, FR_one in Hq.
  split; [exact Fq|]. split; [apply R_leb0|apply R_leb1]; (assumption || lra).
+Qed.
+
+Lemma half_mean_range x y : finite x = true -> finite y = true ->
+  (0 <=? x) = true -> (x <=? 1) = true -> (0 <=? y) = true -> (y <=? 1) = true ->
+  (0 <=? (x + y) / 2) = true /\ ((x + y) / 2 <=? 1) = true.
+Proof.
+ intros Fx Fy X0 X1 Y0 Y1. apply (half_mean_range_fin x y Fx Fy X0 X1 Y0 Y1).
 Qed.
 
 (** a float between 0 and 1 (boolean comparisons) is finite *)
